@@ -269,8 +269,14 @@ func (c *roomCtx) add(name string, t tree, signer string) error {
 		if c.pseudo {
 			name2, key = pseudoID(signer), userKeys[signer]
 		}
-		if pi := guard(func() { ev = ev.Sign(name2, "ed25519:1", key) }); pi != nil {
+		var signed []byte
+		if pi := guard(func() { signed = ev.Sign(name2, "ed25519:1", key).JSON() }); pi != nil {
 			return fmt.Errorf("standard event %s cannot be signed: %s", name, pi.Value)
+		}
+		// parse the signed bytes again: the context events are exactly what the untrusted parser returns
+		var o outcome
+		if ev, o = c.parse(signed); o.Out != "ok" {
+			return fmt.Errorf("signed standard event %s does not parse: %s", name, o.Err)
 		}
 	}
 	c.trees[name] = t
@@ -428,6 +434,18 @@ func buildRoom(ver string, o roomOpts) (*roomCtx, error) {
 		func() error {
 			return step("msg", "m.room.message", nil, "bob", tree{"msgtype": "m.text", "body": "hi"}, []string{"create", "jbob", "pl"})
 		},
+		// two events that are not part of the current state: the other side of the forks that state resolution sees
+		func() error {
+			u2 := tree{al: 50, bo: 5}
+			if !c.domainless {
+				u2[cr] = 100
+			}
+			return step("plB", "m.room.power_levels", strp(""), "creator", tree{"users": u2, "users_default": 0, "events_default": 0,
+				"state_default": 50, "ban": 50, "kick": 50, "redact": 50, "invite": 0}, []string{"create", "jcreator", "pl"})
+		},
+		func() error {
+			return step("kickbob", "m.room.member", &bo, "alice", tree{"membership": "leave", "reason": "bye"}, []string{"create", "jalice", "jbob", "pl"})
+		},
 	}
 	for _, s := range steps {
 		if err := s(); err != nil {
@@ -518,7 +536,11 @@ func (c *roomCtx) subjectTree(typ string) tree {
 		t["redacts"] = c.ids["msg"]
 		return t
 	case "aliases":
-		return c.newEvent("ali", "m.room.aliases", strp("hs1"), "alice", tree{"aliases": []interface{}{"#a:hs1"}}, []string{"create", "jalice", "pl"}, last)
+		sk := "hs1"
+		if c.pseudo {
+			sk = al // the rule for pseudo ID rooms: the state key is the sender
+		}
+		return c.newEvent("ali", "m.room.aliases", &sk, "alice", tree{"aliases": []interface{}{"#a:hs1"}}, []string{"create", "jalice", "pl"}, last)
 	case "history_visibility":
 		return c.newEvent("hv2", "m.room.history_visibility", strp(""), "creator", tree{"history_visibility": "joined"}, []string{"create", "jcreator", "pl"}, last)
 	case "message":
